@@ -128,6 +128,17 @@ def run_case(case, k):
                 d.pop("a%d" % op[3], None)
             else:
                 d.clear()
+        elif op[0] == "setbases" and len(op) > 3:
+            # a listener registered last on the interface being rebased raises from changed()
+            lst = ns["FailingListener"]()
+            ifaces[op[1]].subscribe(lst)
+            try:
+                ifaces[op[1]].__bases__ = tuple(ifaces[b] for b in op[2])
+            except ns["ListenerError"]:
+                pass
+            else:
+                raise Unexpected("the listener's error was swallowed")
+            ifaces[op[1]].unsubscribe(lst)
         elif op[0] == "setbases":
             ifaces[op[1]].__bases__ = tuple(ifaces[b] for b in op[2])
         elif op[0] == "settag":
@@ -154,10 +165,16 @@ def main():
     payload = _boot.read_payload()
     out = []
     for k, case in enumerate(payload["cases"]):
+        # a case may put tagged values on Interface itself: put Interface back afterwards (there is
+        # no public way to delete a tagged value; cleanup only, nothing is observed through this)
+        saved = Interface._Element__tagged_values
+        saved = dict(saved) if saved is not None else None
         try:
             out.append(run_case(case, k))
         except Exception as e:  # reported as data
             out.append({"exc": "%s: %s" % (type(e).__name__, str(e)[:300])})
+        finally:
+            Interface._Element__tagged_values = saved
     _boot.write_result({"obs": out})
 
 
